@@ -117,8 +117,9 @@ Definition asQuery (s : sx) : option (pt * nat) :=
   end.
 Definition ofExt (e : ext) : sx := ofOQ e.
 (* (metric leaf points queries): metric 2 = Manhattan, metric 1 = Euclidean (model and spec on SQUARED distances) *)
-Definition run_knn (rest : list sx) : sx :=
-  match rest with
+(* a 5th field (constructor / default-space mode of the harness) is ignored: the model has no notion of it *)
+Definition run_knn (rest0 : list sx) : sx :=
+  match firstn 4 rest0 with
   | [I metric; I leaf; pts; qs] =>
       match asListOf asQs pts, asListOf asQuery qs with
       | Some data, Some queries =>
